@@ -1,4 +1,5 @@
 import HapVerif.Model.Http
+import HapVerif.Spec.HttpWriter
 
 namespace HapVerif.Drv.Http
 open HapVerif HapVerif.Http
@@ -9,11 +10,38 @@ def showMsg (m : Msg) : String :=
 
 def showMsgs (l : List Msg) : String := if l.isEmpty then "." else " ".intercalate (l.map showMsg)
 
+def pairs (s : String) : List (Bytes × Bytes) :=
+  if s = "." then [] else
+  (s.splitOn ",").filterMap fun kv => match kv.splitOn "=" with
+    | [a, b] => some (ofHex a, ofHex b)
+    | _ => none
+
+/-- `ver;code;reason;headers;framing;body`, framing = `N` | `L:<lenText>` | `C:<size>=<data>,...` -/
+def parseW (s : String) : Option WMsg :=
+  match s.splitOn ";" with
+  | [v, c, r, hs, fr, b] =>
+    let framing : Option Framing :=
+      if fr = "N" then some .none
+      else match fr.splitOn ":" with
+        | ["L", lt] => some (.length (ofHex lt))
+        | ["C", cs] => some (.chunked (pairs cs))
+        | _ => none
+    framing.map fun f => ⟨ofHex v, ofHex c, ofHex r, pairs hs, f, ofHex b⟩
+  | _ => none
+
 def handle : List String → Option String
   | "http.feed" :: chunks =>
     match feedAll {} (chunks.map ofHex) with
     | (ms, .error _) => some s!"{showMsgs ms} ERR"
     | (ms, .ok p) => some s!"{showMsgs ms} | {toHex p.raw} {p.core.state} {toHex p.core.body}"
+  | "http.write" :: msgs =>
+    -- the spec writer: certified well-formedness, the bytes on the wire, the messages the application must get
+    match msgs.mapM parseW with
+    | none => some "bad-op"
+    | some ws =>
+      let coded := ws.map fun w => (w, (parseDec w.codeText).getD 0)
+      let good := coded.all fun (w, c) => goodB w c
+      some s!"good={if good then 1 else 0} {toHex (writeAll coded)} {showMsgs (coded.map fun (w, c) => w.msg c)}"
   | _ => none
 
 end HapVerif.Drv.Http
